@@ -211,7 +211,12 @@ def _ghost(d, rng):
         if gs == real.schema:
             gs = gs + '_x'
         # ... and the name: the table's bare name, or the alias it also answers to
-        g = am.Table(gs, real.alias if real.alias and rng.random() < 0.5 else real.name)
+        gname = real.alias if real.alias and rng.random() < 0.5 else real.name
+        if rng.random() < 0.25:
+            # the real name with blanks around it (a quoted name keeps its blanks: another, undeclared table)
+            gname = rng.choice([gname + ' ', ' ' + gname, ' ' + gname + ' ', gname + '  '])
+            gs = real.schema if rng.random() < 0.6 else rng.choice([real.schema + ' ', ' ' + real.schema])
+        g = am.Table(gs, gname)
         g.columns = [am.Column(c.name, am.ColType('plain', 'int')) for c in real.columns]
         # make sure the real table has been looked up before (a group over it, declared first)
         if rng.random() < 0.7:
@@ -260,7 +265,9 @@ def inj_unknown_table_group(rng, d):
 def _nocol(rng):
     """name of a column that does not exist; sometimes with characters that mean something to a string formatter"""
     n = rng.randrange(10**6)
-    return rng.choice([f'nocol{n}', f'nocol{n}', f'nocol{{v{n}}}', f'{{0}}nocol{n}', f'nocol{n}{{', f'no%scol{n}', f'nocol{n}}}', f'{{self.name}}{n}'])
+    return rng.choice([f'nocol{n}', f'nocol{n}', f'nocol{{v{n}}}', f'{{0}}nocol{n}', f'nocol{n}{{', f'no%scol{n}', f'nocol{n}}}', f'{{self.name}}{n}',
+                       # ... that looks like a position or like a function call (it is a NAME all the same)
+                       '0', '1', '-1', '2', f'lower(nocol{n})', f'ghost({n % 7})', f'date_trunc (nocol{n})', f'f{n}()'])
 
 
 def inj_unknown_col_ref(rng, d):
